@@ -2,7 +2,9 @@
 (* Code -> spec for C09.  One trace = one history of file-system mutations on a real project with
    queries after every step, in a long-lived process A, periodically in a new process B sharing the
    pickle cache directory, always against a fresh process with an empty cache.
-     Mutate{kind}                               a file-system mutation was performed
+     Mutate{kind, mods}                         a file-system mutation was performed on the modules mods; kind
+                                                "open_buffer": no file changed, a Script for the UNSAVED buffer of the
+                                                module's path was analysed in process A
      Resolve{proc, same, n}                     n query results in process proc; same = all equal to the
                                                 fresh process' results
      Decision{had, freshenough, hit}            one parso.cache.load_module call in process A:
@@ -13,21 +15,32 @@
 EXTENDS Naturals, Sequences, FiniteSets, TLC, Json, IOUtils
 
 Traces == JsonDeserialize(IOEnv.TRACE_FILE)
-VARIABLES tid, l, muts
+VARIABLES tid, l, muts, shadow      \* shadow: modules whose unsaved buffer was analysed and whose file was not touched since
 Ev == Traces[tid][l]
+S(q) == {q[i] : i \in 1..Len(q)}
+\* mutations that give the module's file a newer modification time (FileCache.tla: the cached entry is then dropped)
+Touching == {"write", "overwrite_same_size", "delete", "rename", "to_package", "to_module", "remove_init", "add_init"}
 
 Why(e) ==
   CASE e.ev = "Mutate" -> {}
-    [] e.ev = "Resolve" -> IF e.same THEN {} ELSE {"NotSeen"}
+    [] e.ev = "Resolve" -> IF e.same THEN {}
+                           ELSE IF e.proc = "A" /\ shadow # {} THEN {"BufferShadowsDisk"}     \* FileCache.tla OpenBuffer
+                           ELSE {"NotSeen"}
     [] e.ev = "Decision" -> IF e.hit = (e.had /\ e.freshenough) THEN {} ELSE {"ParsoRule"}
     [] OTHER -> {"UnknownEvent"}
 
-TInit == tid \in 1..Len(Traces) /\ l = 1 /\ muts = 0
-TNext == /\ l <= Len(Traces[tid]) /\ (Why(Ev) \subseteq {"ParsoRule"}) = TRUE
+\* recorded and reported, but the rest of the history is still judged
+Tolerated == {"ParsoRule", "BufferShadowsDisk"}
+TInit == tid \in 1..Len(Traces) /\ l = 1 /\ muts = 0 /\ shadow = {}
+TNext == /\ l <= Len(Traces[tid]) /\ (Why(Ev) \subseteq Tolerated) = TRUE
          /\ muts' = IF Ev.ev = "Mutate" THEN muts + 1 ELSE muts
+         /\ shadow' = IF Ev.ev # "Mutate" THEN shadow
+                      ELSE IF Ev.kind = "open_buffer" THEN shadow \cup S(Ev.mods)
+                      ELSE IF Ev.kind \in Touching THEN shadow \ S(Ev.mods) ELSE shadow
          /\ l' = l + 1 /\ UNCHANGED tid
 Verdict ==
   /\ (l <= Len(Traces[tid]) /\ "ParsoRule" \in Why(Ev)) => PrintT(<<"NOTE", tid, l, "ParsoRule">>)
+  /\ (l <= Len(Traces[tid]) /\ "BufferShadowsDisk" \in Why(Ev)) => PrintT(<<"NOTE", tid, l, "BufferShadowsDisk">>)
   /\ IF l = Len(Traces[tid]) + 1 THEN PrintT(<<"ACCEPT", tid>>)
-     ELSE (Why(Ev) \subseteq {"ParsoRule"}) \/ PrintT(<<"REJECT", tid, l, Why(Ev)>>)
+     ELSE (Why(Ev) \subseteq Tolerated) \/ PrintT(<<"REJECT", tid, l, Why(Ev)>>)
 =============================================================================
